@@ -37,6 +37,15 @@ pub struct Case {
     /// the workspace sits below a directory that is itself called `src` (~/src/checkout/<crate>/src/lib.rs)
     #[serde(default)]
     pub src_ancestor: bool,
+    /// (C06's determinism family only) one more file of B imports A's type of the clashing name explicitly, next to B's own
+    /// type of that name in another file; which of the two the flattened per-crate output means is not judged, only that
+    /// it does not depend on arrival order
+    #[serde(default)]
+    pub explicit_foreign_clash: bool,
+    /// B also has `use crate_a::*;` and A's type of the clashing name is serde-renamed: B's own type shadows the glob, so
+    /// B's references keep naming B's definition
+    #[serde(default)]
+    pub glob_and_rename: bool,
 }
 
 const NAMES: &[&str] = &["Settings", "Endpoint", "Item", "Value", "Failure", "Config", "Money", "Node"];
@@ -50,10 +59,11 @@ impl Case {
         let x = &self.clash;
         let imp = &self.imported;
         let mut files: Vec<(String, String)> = vec![];
+        let rename_attr = if self.glob_and_rename { format!("#[serde(rename = \"Remote{x}\")]\n") } else { String::new() };
         // crate A: its own version of the clash type, the imported type, a Leaf
         files.push((
             format!("{}/src/lib.rs", self.crate_a),
-            format!("{hdr}\n#[typeshare]\n#[derive(Serialize, Deserialize)]\npub struct {x} {{\n    pub only_in_a: bool,\n}}\n\n#[typeshare]\n#[derive(Serialize, Deserialize)]\npub struct {imp} {{\n    pub amount: u32,\n}}\n\n#[typeshare]\n#[derive(Serialize, Deserialize)]\npub struct Leaf {{\n    pub leaf_of_a: String,\n}}\n"),
+            format!("{hdr}\n#[typeshare]\n#[derive(Serialize, Deserialize)]\n{rename_attr}pub struct {x} {{\n    pub only_in_a: bool,\n}}\n\n#[typeshare]\n#[derive(Serialize, Deserialize)]\npub struct {imp} {{\n    pub amount: u32,\n}}\n\n#[typeshare]\n#[derive(Serialize, Deserialize)]\npub struct Leaf {{\n    pub leaf_of_a: String,\n}}\n"),
         ));
         // crate B
         let (lib_use, lib_ty) = match self.lib_form % 5 {
@@ -63,7 +73,7 @@ impl Case {
             3 => (String::new(), format!("self::settings::{x}")),
             _ => (format!("use self::{{settings::{x}}};\n"), x.clone()),
         };
-        let mut lib = format!("pub mod net;\npub mod settings;\n\n{hdr}{lib_use}use {}::{imp};\n", self.a());
+        let mut lib = format!("pub mod net;\npub mod settings;\n\n{hdr}{lib_use}use {}::{imp};\n{}", self.a(), if self.glob_and_rename { format!("use {}::*;\n", self.a()) } else { String::new() });
         let cart = format!("\n#[typeshare]\n#[derive(Serialize, Deserialize)]\npub struct Cart {{\n    pub entries: Vec<{imp}>,\n}}\n");
         let page = format!("\n#[typeshare]\n#[derive(Serialize, Deserialize)]\npub struct Page<{imp}> {{\n    pub rows: Vec<{imp}>,\n    pub total: u32,\n}}\n");
         if self.generic_shadow && self.generic_first {
@@ -93,6 +103,9 @@ impl Case {
         net.push_str("}\n");
         files.push((format!("{}/src/net/mod.rs", self.crate_b), net));
         files.push((format!("{}/src/net/leaf.rs", self.crate_b), format!("{hdr}\n#[typeshare]\n#[derive(Serialize, Deserialize)]\npub struct Leaf {{\n    pub leaf_of_b: u8,\n}}\n")));
+        if self.explicit_foreign_clash {
+            files.push((format!("{}/src/remote_user.rs", self.crate_b), format!("use {}::{x};\n{hdr}\n#[typeshare]\n#[derive(Serialize, Deserialize)]\npub struct RemoteUser {{\n    pub theirs: {x},\n    pub many: Vec<{x}>,\n}}\n", self.a())));
+        }
         files.into_iter().map(|(p, t)| (p, t.into_bytes())).collect()
     }
 }
@@ -105,8 +118,8 @@ impl SubCheck for C14Scope {
     }
     fn strategy(&self, _tier: Tier) -> BoxedStrategy<Case> {
         let dirs = prop_oneof![Just(("crate_a", "crate_b")), Just(("zeta-types", "app")), Just(("api", "core-types")), Just(("shared_models", "x-y-z")), Just(("shared_models", "codable"))];
-        (ws::lang_strategy(), dirs, proptest::sample::subsequence(NAMES.to_vec(), 2..=2).prop_shuffle(), 0u8..5, 0u8..4, any::<bool>(), any::<bool>(), any::<bool>(), any::<bool>())
-            .prop_map(|(lang, (a, b), names, lib_form, net_form, child_ref, generic_shadow, generic_first, src_ancestor)| Case {
+        (ws::lang_strategy(), dirs, proptest::sample::subsequence(NAMES.to_vec(), 2..=2).prop_shuffle(), 0u8..5, 0u8..4, any::<bool>(), any::<bool>(), any::<bool>(), any::<bool>(), any::<bool>())
+            .prop_map(|(lang, (a, b), names, lib_form, net_form, child_ref, generic_shadow, generic_first, src_ancestor, glob_and_rename)| Case {
                 lang,
                 crate_a: a.to_string(),
                 crate_b: b.to_string(),
@@ -118,6 +131,8 @@ impl SubCheck for C14Scope {
                 generic_shadow,
                 generic_first,
                 src_ancestor,
+                explicit_foreign_clash: false,
+                glob_and_rename,
             })
             .boxed()
     }
@@ -152,6 +167,7 @@ impl SubCheck for C14Scope {
         let produced = cli::read_tree(&outd);
         let mut fa = None;
         let mut fb = None;
+        let mut text_b = String::new();
         for (name, bytes) in &produced {
             if name == "Codable.swift" {
                 continue;
@@ -163,6 +179,7 @@ impl SubCheck for C14Scope {
                         fa = Some(o.file);
                     } else if crate::prog::norm(&stem) == crate::prog::norm(&b) {
                         fb = Some(o.file);
+                        text_b = String::from_utf8_lossy(bytes).into_owned();
                     }
                 }
                 Err(_) => {
@@ -182,13 +199,22 @@ impl SubCheck for C14Scope {
         // partition: each crate's file holds its own version of the clashing names
         let has_field = |f: &OFile, decl: &str, field: &str| f.decls.iter().filter(|d| d.name == decl).any(|d| d.fields.iter().any(|x| crate::prog::norm(&x.ident) == crate::prog::norm(field) || x.key == field));
         let count = |f: &OFile, decl: &str| f.decls.iter().filter(|d| d.name == decl && d.kind != OKind::Helper).count();
-        for (file, which, decl, field) in [(&fa, &a, c.clash.as_str(), "only_in_a"), (&fb, &b, c.clash.as_str(), "only_in_b"), (&fa, &a, "Leaf", "leaf_of_a"), (&fb, &b, "Leaf", "leaf_of_b")] {
+        let a_clash_name = if c.glob_and_rename { format!("Remote{}", c.clash) } else { c.clash.clone() };
+        for (file, which, decl, field) in [(&fa, &a, a_clash_name.as_str(), "only_in_a"), (&fb, &b, c.clash.as_str(), "only_in_b"), (&fa, &a, "Leaf", "leaf_of_a"), (&fb, &b, "Leaf", "leaf_of_b")] {
             if count(file, decl) != 1 || !has_field(file, decl, field) {
                 out.push(Violation::new(
                     if lang == Lang::Swift && c.crate_b == "codable" { "scoping/swift/partition/crate-file-is-Codable.swift".to_string() } else { format!("scoping/{}/partition/same-name-in-two-crates", lang.short()) },
                     format!("{}: `{which}` must define its own `{decl}` (field `{field}`) exactly once; found {} definition(s) named `{decl}` there ({form})", lang.name(), count(file, decl)),
                 ));
             }
+        }
+        // (import lines aside: a glob import brings in every type of `a` by design)
+        let body_b: String = text_b.lines().filter(|l| !l.trim_start().starts_with("import ") && !l.trim_start().starts_with("from ")).collect::<Vec<_>>().join("\n");
+        if c.glob_and_rename && body_b.contains(&format!("Remote{}", c.clash)) {
+            out.push(Violation::new(
+                format!("scoping/{}/reference-renamed-after-a-glob-imported-type", lang.short()),
+                format!("{}: `{b}` has its own `{}` (and names it by relative paths), yet its output spells a reference `Remote{}`, the serde name of the type of `{a}` that `use {a}::*` would bring in if it were not shadowed ({form})", lang.name(), c.clash, c.clash),
+            ));
         }
         // imports (TS, Kotlin): B imports exactly `imported` from A and nothing else; A imports nothing
         if matches!(lang, Lang::TypeScript | Lang::Kotlin) {
@@ -205,8 +231,8 @@ impl SubCheck for C14Scope {
                 ));
             }
             for (m, n) in &ib {
-                if from_a(m) && *n == c.imported {
-                    continue;
+                if from_a(m) && (*n == c.imported || c.glob_and_rename) {
+                    continue; // with `use a::*` typeshare imports every type of `a`, used or not
                 }
                 let local = fb.decls.iter().any(|d| d.name == *n);
                 out.push(Violation::new(
